@@ -772,11 +772,42 @@ func (d *lifeDriver) one(sc Obj) (err error) {
 		if err := d.ad.Apply(t, name, sid, traits); err != nil {
 			return fmt.Errorf("apply %s %s: %v", t, name, err)
 		}
+		// "inflight": a sync of the instance this event is about is held inside its hook call while the reconciler
+		// handles the event; the answer is let go once the reconciler has returned or has been waiting for a moment
+		var gate chan struct{}
+		if AsBool(AsMap(st)["inflight"]) {
+			if _, runs := d.ad.Running()[name]; runs {
+				gate = make(chan struct{})
+				arrived := make(chan struct{}, 1)
+				g := gate
+				d.hooks.SetAnswer(func(c LifeCall, req Obj) (int, []byte) {
+					if c.Name == name && c.Hook == "sync" {
+						select {
+						case arrived <- struct{}{}:
+						default:
+						}
+						<-g
+					}
+					return lifeAnswer(c, req)
+				})
+				d.poke(1000 + k)
+				select {
+				case <-arrived:
+				case <-time.After(2 * time.Second):
+					// the instance does not sync (unresponsive configuration): nothing is in flight
+					close(gate)
+					gate = nil
+					d.hooks.SetAnswer(lifeAnswer)
+				}
+			}
+		}
 		c0, _ := d.hooks.Snapshot()
 		r0 := d.rtrace.Len()
 		var recErr error
 		panicked, pmsg := false, ""
-		func() {
+		recDone := make(chan struct{})
+		go func() {
+			defer close(recDone)
 			defer func() {
 				if r := recover(); r != nil {
 					panicked = true
@@ -785,6 +816,15 @@ func (d *lifeDriver) one(sc Obj) (err error) {
 			}()
 			recErr = d.ad.Reconcile(name)
 		}()
+		if gate != nil {
+			select {
+			case <-recDone:
+			case <-time.After(40 * time.Millisecond):
+			}
+			close(gate)
+			d.hooks.SetAnswer(lifeAnswer)
+		}
+		<-recDone
 		c1, _ := d.hooks.Snapshot()
 		r1 := d.rtrace.Len()
 		during := d.hooks.CallsFrom(c0)[:c1-c0]
